@@ -8,12 +8,13 @@ git -C /repo worktree add -q --detach $wt HEAD || exit 2
 export CARGO_TARGET_DIR=$wt/target
 for n in 1 2 3; do
   [ -f $out/change$n.diff ] || continue
-  cd $wt && git checkout -q -- . && rm -rf tests
+  cd $wt && git checkout -q -- . && rm -rf tests && touch crates/core/src/lib.rs crates/macros/src/lib.rs
   res=$out/confirm$n.txt; : > $res
   mkdir -p tests && cp $out/demo$n.rs tests/demo$n.rs
   feat=$(grep -o -- '--features [a-z,]*' $out/demo$n.rs | head -1)
   cargo test --offline $feat --test demo$n >/dev/null 2>&1; echo "demo_without_change_rc=$?" >> $res
   git apply $out/change$n.diff || { echo "apply_failed" >> $res; continue; }
+  touch crates/core/src/lib.rs crates/macros/src/lib.rs   # grammar files are not tracked by cargo
   cargo test --offline $feat --test demo$n >/dev/null 2>&1; echo "demo_with_change_rc=$?" >> $res
   rm -rf tests
   cargo test --workspace --offline >$out/suite$n.log 2>&1; echo "suite_with_change_rc=$?" >> $res
